@@ -9,6 +9,7 @@ import (
 	"strings"
 	"time"
 
+	"github.com/zmap/zlint/v3"
 	"github.com/zmap/zlint/v3/lint"
 	"github.com/zmap/zlint/v3/util"
 )
@@ -307,6 +308,18 @@ func init() {
 				r := inst.Execute(c)
 				isErr := r.Status == lint.Error
 				lintDirect(c, isErr, zc.DER)
+				// the verdict is about the names as issued: asked again on the same parsed object after every other lint has
+				// run on it (twice), it is what a fresh parse of the same octets gets
+				if fresh, err := safeParseCert(zc.DER); err == nil {
+					zlint.LintCertificate(c)
+					zlint.LintCertificate(c)
+					again := l.Lint().Execute(c).Status == lint.Error
+					freshErr := l.Lint().Execute(fresh).Status == lint.Error
+					if again != freshErr || again != isErr {
+						out.Violate("C18|lint-verdict-changes-on-relint", fmt.Sprintf("e_dnsname_not_valid_tld on %s: error=%v the first time, error=%v after the certificate object has been linted with every lint, error=%v on a fresh parse of the same octets (dNSNames as issued %q)", zc.File, isErr, again, freshErr, fresh.DNSNames),
+							map[string]interface{}{"zoo": zc.File, "der": hexs(zc.DER), "dns": fresh.DNSNames}, freshErr, again)
+					}
+				}
 				lst := cqBytesList(c.DNSNames)
 				if len(c.DNSNames) == 0 {
 					lst = "(@nil bytes)"
